@@ -409,6 +409,39 @@ def scheme_registry(facts):
     return out
 
 
+def prelude_arities(ctx):
+    """name -> (min, max or None) from the formals of the prelude's (define (name . formals) ..) forms; for a procedure with
+    one rest parameter that is only ever tested with pair?/null? and car (an optional argument) max is min + 1"""
+    from . import prelude as P
+    try:
+        macros, forms, path = P.load_macros(ctx["root"])
+    except (OSError, IndexError):
+        return {}
+    out = {}
+    for fm in forms:
+        if isinstance(fm, list) and len(fm) >= 3 and fm[0] == "define" and isinstance(fm[1], list) and fm[1]:
+            name = str(fm[1][0])
+            formals = fm[1][1:]
+            if "." in [str(x) for x in formals]:
+                i = [str(x) for x in formals].index(".")
+                rest = str(formals[i + 1]) if i + 1 < len(formals) else None
+                # optional-argument idiom: the rest list is only inspected through (pair? r) / (null? r) / (car r)
+                uses = []
+
+                def walk(x):
+                    if isinstance(x, list):
+                        for k, y in enumerate(x):
+                            if isinstance(y, P.Sym) and str(y) == rest:
+                                uses.append(str(x[0]) if k > 0 and isinstance(x[0], P.Sym) else "?")
+                            walk(y)
+                walk(fm[2:])
+                optional = bool(uses) and all(u in ("pair?", "null?", "car") for u in uses)
+                out[name] = (i, i + 1 if optional else None)
+            else:
+                out[name] = (len(formals), len(formals))
+    return out
+
+
 def r_arity_table(ctx, rep, rule, table, what):
     """registered arity interval of each named procedure == the interval R7RS gives it"""
     facts = ctx["facts"]
@@ -424,7 +457,20 @@ def r_arity_table(ctx, rep, rule, table, what):
         path = reg.get(name)
         key = "%s|%s" % (rule, name)
         if path is None:
-            rep.ok(rule, key, "`%s` is not a Rust builtin (prelude or absent)" % name, nontrivial=False)
+            # a procedure of the prelude: the interval is that of its formals
+            got = prelude_arities(ctx).get(name)
+            if got is None:
+                rep.ok(rule, key, "`%s` is neither a Rust builtin nor a prelude procedure" % name, nontrivial=False)
+                continue
+            n += 1
+            show = lambda iv: "%d..%s" % (iv[0], "" if iv[1] is None else iv[1])
+            if tuple(got) == tuple(want):
+                rep.ok(rule, key, "`%s` (prelude) admits %s arguments, as R7RS specifies" % (name, show(got)))
+            else:
+                rep.fail(rule, key, "`%s` (prelude) admits %s arguments, R7RS specifies %s: %s" % (
+                    name, show(got), show(want), "a call R7RS defines is rejected with an arity error" if
+                    (got[0] > want[0] or (got[1] is not None and (want[1] is None or got[1] < want[1]))) else
+                    "calls R7RS does not define are accepted (a call with too few operands does not end in an arity error)"))
             continue
         f = facts.fns[path]
         got = arity_of(facts, f)
